@@ -49,6 +49,7 @@ def _run(cx, rid, f, names, ref, text):
     key = f.id.rsplit("::", 1)[-1]
     prog = cx.p
     expand = set()
+    crate_cond = False        # the function decided through a condition that is a function of this crate (unfolded since)
     for _round in range(4):
         try:
             tree = dec.build_tree(f, prog=prog, expand=expand)
@@ -70,6 +71,7 @@ def _run(cx, rid, f, names, ref, text):
         # predicate): unfold the callee and compare again
         more = {getattr(atoms, "callee", {}).get(k) for k in unk if k[0] == "call"}
         more = {m for m in more if m in prog.raw_fns and m not in expand and m != f.id}
+        crate_cond = crate_cond or bool(more)
         if not bad or not more:
             break
         expand |= more
@@ -78,7 +80,7 @@ def _run(cx, rid, f, names, ref, text):
     # conditions computed by a std adaptor (Option::is_some_and with a closure, ...) are opaque to the extraction; a condition
     # that is a call of a function of this crate is a real, different condition and is compared
     opaque_only = bool(unk) and all(k[0] == "call" and str(callee.get(k, "")).split("::")[0] in ("std", "core", "alloc") for k in unk)
-    if bad and opaque_only:
+    if bad and opaque_only and not crate_cond:
         # the function decides through conditions the reference has no name for (a std adaptor with a closure, a new
         # helper ...): the tables are not comparable, which is not a verdict
         cx.advisory(rid, key + ":table", f.where(),
